@@ -58,9 +58,14 @@ fn fixed_cases() -> Vec<Case> {
         v.push(Case::BufferLength(x));
     }
     for p in PAYLOADS {
-        v.push(Case::SerPayload(p));
-        v.push(Case::ClientPayload(p));
-        v.push(Case::ServerPayload(p));
+        for _ in 0..4 {
+            // repeated: the chunk size in force is drawn per case
+            v.push(Case::SerPayload(p));
+        }
+        for _ in 0..2 {
+            v.push(Case::ClientPayload(p));
+            v.push(Case::ServerPayload(p));
+        }
     }
     for l in STR_LENS {
         for _ in 0..4 {
@@ -294,9 +299,12 @@ fn run(case: &Case, rng: &mut Rng, out: &mut Out) {
             let m = Msg { type_id: 9, msid: 1, ts: 0, data };
             let p = crate::adapt::to_payload(&m);
             let mark = alloc::mark();
-            let r = lib_call(out, "ChunkSerializer::serialize", || what.clone(), || {
+            // the chunk size in force must not matter for the length limit: small, default-ish,
+            // 2^24 and the largest legal one (where even an over-long payload fits one chunk)
+            let chunk = *rng.pick(&[65536u32, 128, 0xFF_FFFF, 0x100_0000, 0x7FFF_FFFF, 0x7FFF_FFFF]);
+            let r = lib_call(out, "ChunkSerializer::serialize", || json!({"case": what.clone(), "chunk_size": chunk}), || {
                 let mut s = ChunkSerializer::new();
-                let _ = s.set_max_chunk_size(65536, RtmpTimestamp::new(0));
+                let _ = s.set_max_chunk_size(chunk, RtmpTimestamp::new(0));
                 s.serialize(&p, false, false).map(|p| p.bytes).map_err(|e| format!("{:?}", e))
             });
             let peak = alloc::peak_since(mark);
@@ -312,7 +320,7 @@ fn run(case: &Case, rng: &mut Rng, out: &mut Out) {
                     } else {
                         let got = lib_decode_partitioned(&bytes, &[bytes.len()], &[]).map_err(|e| e.0);
                         let mut d = ChunkDeserializer::new();
-                        let _ = d.set_max_chunk_size(65536);
+                        let _ = d.set_max_chunk_size(chunk as usize);
                         let mut got2 = Vec::new();
                         let r2 = crate::adapt::lib_feed(&mut d, &bytes, &mut got2, |_, _| {});
                         let _ = got;
@@ -338,8 +346,9 @@ fn run(case: &Case, rng: &mut Rng, out: &mut Out) {
             let mut sc = small_scenario(rng, mode);
             sc.items.push(Item::Video { data: vec![0xA5u8; *len], ts: 99, drop: false });
             sc.items.push(Item::Audio { data: vec![1, 2, 3], ts: 100, drop: false });
-            sc.client_cfg.chunk_size = 65536;
-            sc.server_cfg.chunk_size = 65536;
+            let chunk = *rng.pick(&[65536u32, 0x100_0000, 0x7FFF_FFFF]);
+            sc.client_cfg.chunk_size = chunk;
+            sc.server_cfg.chunk_size = chunk;
             sc.sched = 1;
             let r = scenario_outcome(&sc, rng, out, &what);
             judge(*len <= 16_777_215, true, r, out, &what);
